@@ -8,6 +8,7 @@ pub mod fixtures;
 pub mod qx;
 pub mod hist;
 pub mod crashfs;
+pub mod faulty;
 pub mod walcodec;
 pub mod aggworld;
 pub mod http;
